@@ -70,10 +70,21 @@ Big(z) ==
     \cup {Stream(Many(25), cuts, "device", FALSE) : cuts \in {{252}, {264}, {276}}}
     \cup {Stream(fs, cuts, "device", TRUE) : fs \in {<<Big16, Frame("f3", 2)>>, Many(25)}, cuts \in {{}, {259}, {250}}}
 
-C15Cases(z) == OneFrame(0) \cup TwoFrames(0) \cup ThreeFrames(0) \cup E2E(0) \cup Big(0)
+Hdr(tid, len, unit) == U16(tid) \o <<0, 0>> \o U16(len) \o <<unit>>
+\* a refused request (unsupported function / out-of-range quantity) followed by other requests: what is left of the
+\* refused one must not disturb the handling of the next
+Unsup(tid) == Hdr(tid, 6, 9) \o <<7, 0, 1, 0, 1>>
+Unsup2(tid) == Hdr(tid, 4, 3) \o <<100, 5, 6>>
+TooMany(tid) == TCPADU(tid, 1, ReqPDU(R(3, 1, 0, 126, <<>>, 0, 0)))
+RefusedStreams == {<<Unsup(1), Frame("f3", 2)>>, <<Frame("f3", 1), Unsup(2), Frame("f16", 3)>>, <<Unsup2(1), Unsup(2), Frame("f5", 3)>>,
+                   <<TooMany(1), Frame("f3", 2)>>, <<Frame("f5", 1), TooMany(2), Unsup(3), Frame("f3", 4)>>}
+Refused(z) ==
+    UNION {{Stream(fs, cuts, "device", FALSE) : cuts \in CutSetsUpTo(Len(Cat(fs, 1)), 2)} : fs \in RefusedStreams}
+    \cup {Stream(fs, cuts, "device", TRUE) : fs \in RefusedStreams, cuts \in {{}, {12}, {5}, {13, 20}}}
+
+C15Cases(z) == OneFrame(0) \cup TwoFrames(0) \cup ThreeFrames(0) \cup E2E(0) \cup Big(0) \cup Refused(0)
 
 ----------------------------------------------------------------------------
-Hdr(tid, len, unit) == U16(tid) \o <<0, 0>> \o U16(len) \o <<unit>>
 Whole(f, handler, e2e) == [op |-> "stream", frames |-> <<f>>, segs |-> <<Len(f)>>, handler |-> handler, e2e |-> e2e]
 Handlers == {"device", "errTyped", "errGeneric", "panic", "nil"}
 
@@ -96,9 +107,17 @@ BadCountFrames ==
     \cup {TCPADU(4660, 1, <<15, 0, 1, 0, 9, bc, 1, 2>>) : bc \in {0, 1, 3, 255}}
     \cup {TCPADU(4660, 1, <<23, 0, 1, 0, 1, 0, 2, 0, 1, bc, 1, 2>>) : bc \in {0, 1, 3, 255}}
 
+\* a frame as long as the 16-bit length field allows (65 541 bytes), delivered in reads of 300 bytes: whatever is sent
+\* back, and whenever, must be addressed to the request - and nothing may be sent before the frame is complete
+Giant(lenField) == Hdr(4660, lenField, 9) \o <<3, 0, 10, 0, 2>> \o [i \in 1..(lenField - 6) |-> 0]
+GiantCase(lenField) ==
+    LET f == Giant(lenField) L == Len(f) IN
+    [op |-> "stream", frames |-> <<f>>, segs |-> Lens(L, {300 * k : k \in 1..((L - 1) \div 300)}), handler |-> "device", e2e |-> FALSE]
+
 C16Cases(z) ==
     {Whole(f, h, FALSE) : f \in LegalFrames, h \in Handlers}
     \cup {Whole(f, "device", FALSE) : f \in UnsupportedFrames \cup OutOfLimitFrames \cup TruncatedFrames \cup BadCountFrames}
+    \cup {GiantCase(n) : n \in {65535, 65531}}
     \cup {Whole(f, h, TRUE) : f \in {Frame("f3", 4660), Frame("f16", 4660)}, h \in Handlers}
     \cup {Whole(f, "device", TRUE) : f \in {Hdr(4660, 6, 9) \o <<7, 0, 1, 0, 1>>, TCPADU(4660, 1, ReqPDU(R(3, 1, 0, 126, <<>>, 0, 0))),
                                             Hdr(4660, 3, 1) \o <<3, 0>>, TCPADU(4660, 1, <<16, 0, 1, 0, 2, 255, 1, 2, 3, 4>>)}}
@@ -108,7 +127,7 @@ Init == c \in CaseSet(0)
 Next == UNCHANGED c
 \* the generator's own classification of what it builds
 SelfConsistent ==
-    /\ Set = "c15" => \A i \in DOMAIN c.frames : FrameClass(c.frames[i]) = "legal"
+    /\ Set = "c15" => \A i \in DOMAIN c.frames : Answerable(c.frames[i])
     /\ Set = "c16" => LET f == c.frames[1] IN
           /\ (f \in LegalFrames => FrameClass(f) = "legal")
           /\ (f \in UnsupportedFrames => FrameClass(f) = "unsupported")
